@@ -1230,14 +1230,17 @@ pub fn run(ctx: &mut Ctx) {
             TestKey::new("ecdsa-p384-v4", keys::ecdsa_p384_ecdh(&mut krng)),
             TestKey::new("ecdsa-p521-v4", keys::ecdsa_p521_ecdh(&mut krng)),
             TestKey::new("eddsa-legacy-v4", keys::eddsa_legacy_ecdh(&mut krng)),
+            TestKey::new("ecdsa-secp256k1-v4", keys::ecdsa_secp256k1_ecdh(&mut krng)),
+            TestKey::new("ed448-v6", keys::ed448_x448(&mut krng)),
         ];
         let all_hashes = [HashAlgorithm::Sha224, HashAlgorithm::Sha256, HashAlgorithm::Sha384, HashAlgorithm::Sha512, HashAlgorithm::Sha3_256, HashAlgorithm::Sha3_512];
         let texts = ["alg sweep\r\nsecond line\n", "x"];
-        for key in extra.iter().chain([&rsa, &ed4]) {
+        // (v6 keys: the salt in front of the hashed data has a hash-specific length)
+        for key in extra.iter().chain([&rsa, &ed4, &ed6]) {
             for (hi, h) in all_hashes.iter().enumerate() {
                 // the library refuses (documented) digests shorter than the curve / EdDSA security level
                 let bits = match h { HashAlgorithm::Sha224 => 224, HashAlgorithm::Sha256 | HashAlgorithm::Sha3_256 => 256, HashAlgorithm::Sha384 => 384, _ => 512 };
-                let min_bits = match key.name { "ecdsa-p256-v4" | "eddsa-legacy-v4" | "ed25519-v4" => 256, "ecdsa-p384-v4" => 384, "ecdsa-p521-v4" => 512, _ => 0 };
+                let min_bits = match key.name { "ecdsa-p256-v4" | "eddsa-legacy-v4" | "ed25519-v4" | "ed25519-v6" | "ecdsa-secp256k1-v4" => 256, "ecdsa-p384-v4" => 384, "ecdsa-p521-v4" | "ed448-v6" => 512, _ => 0 };
                 if bits < min_bits {
                     env.ctx.stat("gen:alg_hash_sweep:refused_config_skipped");
                     continue;
